@@ -110,5 +110,7 @@ def run(ctx, rep):
         vs = [c[1] for c in p.constraints if c[0][0] == 'variant' and c[0][2] == TYPE]
         if vs[:1] == ['String'] and p.exit == 'return':
             r = deref(p.env, p.env.get('_0'))
-            okstr = bool(r and r[0] == 'call' and 'PartialOrd' in r[1] and 'str' in str(r))
+            if r and r[0] != 'call':
+                r = next((x for x in subtrees(r) if x[0] == 'call' and x[1].endswith(('::cmp', '::partial_cmp')) and len(x[2]) == 2), r)
+            okstr = bool(r and r[0] == 'call' and ('PartialOrd' in r[1] or r[1].endswith('::cmp')) and 'str' in str(r))
     rep.ob(okstr, 'R06.4', pc.path, 'string ordering', 'strings are ordered by <str as PartialOrd> (lexicographic by code point)', pc.loc())
